@@ -167,3 +167,65 @@ def loop_head(fn, node):
             if best is None or len(body) < best:
                 best, head = len(body), hb
     return head
+
+
+_NAMED = {}
+
+
+def named_const(prog, name, default=None):
+    """value of a macro / enumeration constant as clang evaluated it somewhere in the program
+    (expression nodes carry the spelling they expanded from)"""
+    tab = _NAMED.get(id(prog))
+    if tab is None:
+        from . import width as _w
+        tab = {}
+
+        def visit(x, up):
+            if not isinstance(x, dict):
+                return
+            mine = {v for v in (x.get("m"), x.get("om")) if isinstance(v, str)}
+            if x.get("c") is not None and x.get("k") in ("i", "b", "u", "cast", "?"):
+                # the outermost node of an expansion carries the value of the macro
+                for nm in mine - up:
+                    tab.setdefault(nm, x["c"])
+            for ch in T.children(x):
+                visit(ch, mine)
+        for f in prog.functions():
+            for _line, e in _w._exprs_of(f):
+                visit(e, set())
+        _NAMED[id(prog)] = tab
+    return tab.get(name, default)
+
+
+def silent_lits(fn, prog, node):
+    """control literals of `node` whose other arm goes on normally - i.e. the conditions under which
+    the event is *silently skipped*.  Literals whose other arm leaves through an error exit (noreturn
+    call, or every return reached from it has a value known non-zero) are dropped: they do not skip
+    the event, they fail the operation.  -> [(bid, truth, atom, is_loop_condition)]"""
+    out = []
+    for (bid, t, a) in fn.control_literals(node):
+        lit = fn.literal(bid)
+        end = fn.block_end(bid)
+        taken = 0 if (t == lit[1]) else 1
+
+        def other_only(n, si, m, _end=end, _tk=taken):
+            return not (n is _end and si == _tk)
+        ex = absint.Explorer(fn, prog)
+        try:
+            terms = ex.run([end], edge_ok=other_only, skip_start_event=True)
+        except Broken:
+            terms = None
+        err = False
+        if terms is not None:
+            rets = [(nd, env) for (nd, env, fl, st) in terms if (nd.ev and nd.ev["e"] == "R") or nd is fn.exit_node()]
+            valued = [(nd, env) for (nd, env) in rets if nd.ev and nd.ev["e"] == "R" and nd.ev.get("x") is not None]
+            if not rets:
+                err = True          # every path ends in a noreturn call
+            elif valued and len(valued) == len([r for r in rets if r[0].ev and r[0].ev["e"] == "R"]) and \
+                    all(absint._nz(ex.eval(nd.ev["x"], env)) for (nd, env) in valued):
+                err = True
+        if err:
+            continue
+        tk = (fn.blocks[bid].get("t") or {}).get("k")
+        out.append((bid, t, a, tk in ("for", "while", "do")))
+    return out
